@@ -47,7 +47,7 @@ macro_rules! lb {
         }
     };
 }
-lb!(c26_o1_q_lb_1223, [1u8, 2, 2, 3]);
+lb!(c26_o1_t_lb_1223, [1u8, 2, 2, 3]);
 lb!(c26_o1_t_lb_1133, [1u8, 1, 3, 3]);
 lb!(c26_o1_t_lb_2222, [2u8, 2, 2, 2]);
 lb!(c26_o1_t_lb_123, [1u8, 2, 3]);
@@ -183,7 +183,7 @@ fn descent_on(all: &[u8], in_left_expected: fn(u8) -> bool) {
 /// distinct keys: separator 3, left [1,2], right [3,4]
 #[kani::proof]
 #[kani::unwind(8)]
-fn c26_o4_q_descent_distinct_keys() {
+fn c26_o4_t_descent_distinct_keys() {
     fn left(t: u8) -> bool {
         t <= 2
     }
@@ -194,7 +194,7 @@ fn c26_o4_q_descent_distinct_keys() {
 /// (known finding on the pinned commit: the descent goes right for t == separator)
 #[kani::proof]
 #[kani::unwind(8)]
-fn c26_o4_q_descent_duplicates_straddle_split() {
+fn c26_o4_t_descent_duplicates_straddle_split() {
     fn left(t: u8) -> bool {
         t <= 2
     }
